@@ -409,6 +409,8 @@ class C14World(World):
         out = []
         if op.get("rows", 2) > 2:
             out.append(dict(op, rows=2))
+        if op.get("eval_first"):
+            o = dict(op); o.pop("eval_first"); out.append(o)
         if op.get("loc", 0.0) != 0.0:
             out.append(dict(op, loc=0.0))
         if op.get("scale", 1.0) != 1.0:
@@ -599,6 +601,8 @@ class C14World(World):
                       scale=data.pick([1.0, 1.0, 0.1, 5.0]))
         elif kind == "restart":
             op.update(seed=data.seed30(), source=sched.weighted(["now", "old"], [3, 1]))
+            if sched.chance(0.3):
+                op["eval_first"] = True      # the new incarnation is switched to evaluation mode *before* the load
         elif kind == "reject":
             op.update(x=data.seed30(), how=fault.pick(["rank3", "rank1"]), dir=fault.pick(["forward", "inverse"]))
         self._last_kind = kind
@@ -760,6 +764,12 @@ class C14World(World):
             self.probes["restart_skipped_constructor_refused"] += 1
             log.add("restart_skipped", type(e).__name__)
             return
+        eval_first = bool(op.get("eval_first"))
+        if eval_first:
+            # "save+load into a fresh instance": nothing says the fresh instance is still in training mode when it is
+            # loaded - a served model is typically built, put in evaluation mode and then given its weights
+            fresh.eval()
+            self.probes["restart_loaded_in_evaluation_mode"] += 1
         try:
             fresh.load_state_dict(self.load_bytes(source), strict=True)
         except Exception as e:   # noqa: BLE001
@@ -767,7 +777,7 @@ class C14World(World):
         for old_layer, _ in self.monitored:
             old_layer.__dict__.pop("_c14_world", None)
         self.root = fresh
-        self.mode = True     # volatile: a fresh incarnation is in training mode
+        self.mode = not eval_first     # volatile: a fresh incarnation is in training mode unless switched before the load
         self._attach()
         for (layer, ref), s in zip(self.monitored, snaps):
             ref.restore(s)
